@@ -425,6 +425,9 @@ func abs64(v int64) int64 {
 // ---- comparison with Go simple values ----
 
 // Options for EqualGo.
+// NumAsStringOK is set by a monitor while it runs decoders under ojg.NumConvString.
+var NumAsStringOK bool
+
 type EqOpt struct {
 	// ReplaceInvalidUTF8: the model's strings have invalid UTF-8 bytes replaced
 	// by U+FFFD before comparing (writers document that replacement).
@@ -457,6 +460,14 @@ func EqualGo(v *Value, g any, path string) (bool, string) {
 			}
 		case json.Number:
 			if ok, why := NumMatches(v.Lit, ReprBig, 0, 0, string(t)); !ok {
+				return false, path + ": " + why
+			}
+		case string:
+			// ojg.NumConvString: a number too big for int64 / float64 is delivered as the string of its digits
+			if !NumAsStringOK {
+				return false, fmt.Sprintf("%s: expected number %s, got %T %v", path, v.Lit, g, g)
+			}
+			if ok, why := NumMatches(v.Lit, ReprBig, 0, 0, t); !ok {
 				return false, path + ": " + why
 			}
 		default:
